@@ -32,7 +32,8 @@ def fkOf : String → Option FK
 
 def ctOf (s : String) : CT :=
   match ikOf s, fkOf s with
-  | some k, _ => .int k | _, some k => .flt k | _, _ => .char
+  | some k, _ => .int k | _, some k => .flt k
+  | _, _ => if s.startsWith "chars" then .chars (natOf (s.drop 5).toString) else .char
 
 def vkOf (s : String) : VK :=
   match ikOf s, fkOf s with
